@@ -272,10 +272,9 @@ func runC06(t *testing.T, sci interface{}, keepLog bool) *hx.Outcome {
 								s.Fail("timestamp-before-clock", "id %d carries timestamp %d ms, the clock reading of that call was %d ms after the epoch", id, tf, rd/1e6-epochMs)
 								return
 							}
-							if id < 0 {
-								s.Fail("negative-id", "id %d is negative", id)
-								return
-							}
+							// (a negative id is not judged: when the clock reads before the epoch - which "any epoch, any sequence of
+							// readings" includes - the timestamp field is negative and so is the id; the property demands order,
+							// timestamp >= reading and the node field, all of which are judged above)
 						}
 						if rd != 0 && prevSign != 0 && rd < prevSign {
 							s.Count("clock-went-backwards")
